@@ -136,6 +136,8 @@ type gen struct {
 	nmsg     int
 	nbranch  int
 	ntag     int
+	pending  []string // statements queued by a multi-statement pattern
+	pkSecond map[string]bool
 }
 
 var tablePool = []string{"t", "u", "v"}
@@ -224,9 +226,25 @@ func (g *gen) dml(m *mstate) string {
 		n := hx.Pick(g.r, free)
 		nc := g.r.Range(1, 3)
 		parts := []string{"create", n}
+		// Per table name the key column is either the leading column or the second one, after an int
+		// column — fixed for the whole program: dolt derives the key column's tag from the kinds of the
+		// columns declared before it, and a table re-created with another key tag is a different key set
+		// (outside the model; cherry-picking across such a change even panics in dolt, see design/C32.md).
+		second := g.pkSecond[n]
+		if _, ok := g.pkSecond[n]; !ok {
+			second = g.r.Chance(1, 2)
+			g.pkSecond[n] = second
+		}
+		if second {
+			parts = append(parts, "pk@1")
+		}
 		for i := 0; i < nc; i++ {
 			g.usedCols[n]++
-			parts = append(parts, fmt.Sprintf("c%d:%s", g.usedCols[n], hx.Pick(g.r, []string{"int", "str"})))
+			ty := hx.Pick(g.r, []string{"int", "str"})
+			if second && i == 0 {
+				ty = "int"
+			}
+			parts = append(parts, fmt.Sprintf("c%d:%s", g.usedCols[n], ty))
 		}
 		return strings.Join(parts, " ")
 	}
@@ -257,7 +275,13 @@ func (g *gen) dml(m *mstate) string {
 		return fmt.Sprintf("addcol %s c%d %s", t.Name, g.usedCols[t.Name], hx.Pick(g.r, []string{"int", "str"}))
 	case x < 96:
 		if len(t.Cols) > 1 {
-			return fmt.Sprintf("dropcol %s %s", t.Name, hx.Pick(g.r, t.Cols).Name)
+			cands := t.Cols
+			if g.pkSecond[t.Name] {
+				// never the column declared before the key: cherry-picking such a commit corrupts the
+				// table in dolt (known finding C31/cherry-pick/drop-column-before-key, fixed witness)
+				cands = t.Cols[1:]
+			}
+			return fmt.Sprintf("dropcol %s %s", t.Name, hx.Pick(g.r, cands).Name)
 		}
 		return fmt.Sprintf("del %s %d", t.Name, g.pk(t, true))
 	default:
@@ -286,7 +310,79 @@ var profiles = map[string][8]int{
 	"C34": {40, 16, 8, 3, 1, 12, 10, 10},
 }
 
+// otherValue returns a cell different from cur for a column of type ty.
+func (g *gen) otherValue(ty, cur string) string {
+	for i := 0; i < 8; i++ {
+		if v := g.cell(ty); v != cur {
+			return v
+		}
+	}
+	if cur == "N" {
+		if ty == "int" {
+			return "i1"
+		}
+		return "s" + hexS("a")
+	}
+	return "N"
+}
+
+// patterns: multi-statement sequences the properties name as hard cases
+func (g *gen) pattern(m *mstate) bool {
+	switch {
+	case g.prop == "C31" && len(m.W) > 0 && len(m.ids) > 1 && g.r.Chance(1, 9):
+		// revert on a DIRTY working set: unstaged edits in some table and/or a new untracked table, then
+		// revert a random commit (refused when the revert touches a dirty table)
+		t := hx.Pick(g.r, m.W)
+		if len(t.Cols) > 0 && len(t.Rows) > 0 && g.r.Chance(2, 3) {
+			rw := hx.Pick(g.r, t.Rows)
+			ci := g.r.Intn(len(t.Cols))
+			g.pending = append(g.pending, fmt.Sprintf("upd %s %d %s %s", t.Name, rw.PK, t.Cols[ci].Name, g.otherValue(t.Cols[ci].Ty, rw.Cells[ci])))
+		}
+		if g.r.Chance(1, 2) {
+			for _, n := range tablePool {
+				if findTable(m.W, n) == nil && findTable(m.H, n) == nil {
+					g.usedCols[n]++
+					pk := ""
+					if second, ok := g.pkSecond[n]; ok && second {
+						pk = "pk@1 "
+					} else {
+						g.pkSecond[n] = false
+					}
+					g.pending = append(g.pending, fmt.Sprintf("create %s %sc%d:int", n, pk, g.usedCols[n]), fmt.Sprintf("ins %s 1 i1", n))
+					break
+				}
+			}
+		}
+		g.pending = append(g.pending, hx.Pick(g.r, []string{"revert", "revertA"})+" "+g.commitRef(m))
+		return true
+	case g.prop == "C34" && len(m.branches) > 1 && len(m.W) > 0 && g.r.Chance(1, 8):
+		// edit, add, undo the edit: the change lives only in the STAGED root; then a checkout that moves
+		// the working set
+		t := hx.Pick(g.r, m.W)
+		if len(t.Cols) == 0 || len(t.Rows) == 0 {
+			return false
+		}
+		rw := hx.Pick(g.r, t.Rows)
+		ci := g.r.Intn(len(t.Cols))
+		g.pending = append(g.pending,
+			fmt.Sprintf("upd %s %d %s %s", t.Name, rw.PK, t.Cols[ci].Name, g.otherValue(t.Cols[ci].Ty, rw.Cells[ci])),
+			"add "+t.Name,
+			fmt.Sprintf("upd %s %d %s %s", t.Name, rw.PK, t.Cols[ci].Name, rw.Cells[ci]),
+			"checkoutmove "+g.otherBranch(m))
+		return true
+	}
+	return false
+}
+
 func (g *gen) op(m *mstate, ask func(string) string) string {
+	if len(g.pending) == 0 {
+		g.pattern(m)
+	}
+	if len(g.pending) > 0 {
+		l := g.pending[0]
+		g.pending = g.pending[1:]
+		return l
+	}
 	w := profiles[g.prop]
 	tot := 0
 	for _, x := range w {
@@ -503,6 +599,10 @@ func (rn *runner) runProgram(g *gen, replay []string, steps int) {
 			return
 		}
 		if mres != ires {
+			// let the property oracles judge what dolt did, on dolt's own state
+			if d, err := im.dump(); err == nil && !strings.Contains(d, "?") {
+				ora.after(line, ires, pre, parseDump(d), kc, replay != nil)
+			}
 			e.Rep.Disagree(kc, ires+" ["+out.class+"] "+out.msg, res, "result class")
 			return
 		}
@@ -584,7 +684,7 @@ func main() {
 	witnesses(rn)
 	progs := e.N(20, 300)
 	for p := 0; p < progs; p++ {
-		g := &gen{r: e.Rng.Fork(), prop: *prop, usedCols: map[string]int{}}
+		g := &gen{r: e.Rng.Fork(), prop: *prop, usedCols: map[string]int{}, pkSecond: map[string]bool{}}
 		steps := g.r.Range(25, 60)
 		msg := hx.Recover(func() string { rn.runProgram(g, nil, steps); return "" })
 		if msg != "" {
